@@ -177,6 +177,18 @@ def run(ctx, prog):
                 k = sum(1 for x in ctx.instances if x['rule'] == 'C05.R2' and x['key'].startswith('C05.R2 | %s | %s' % (f.short, a.cls)))
                 ctx.inst('C05.R2', f.short, '%s.write() #%d under the write gate' % (a.cls, k), ok, 'held at %s: %s' % (a.call.loc, sorted(h)))
     ctx.floor('C05.R2', 'exclusive canonical acquisitions in mutators', n, 9, '')
+    # the deciding read is serialised too: the shared doc_store acquisition with which a mutator looks the document up (what `existed` / the
+    # logged entry is based on) happens under the write gate — read before it, two mutations of one id can both act on the pre-state
+    n_r = 0
+    for fn in ('HnswBackend::insert', 'HnswBackend::delete', 'HnswBackend::update_metadata', 'HnswBackend::batch_delete'):
+        f = ctx.body('C05.R2', fn)
+        for bb, a in sorted(lm.body_acqs.get(f.id, {}).items()):
+            if a.cls == 'HnswBackend.doc_store' and a.mode == 'R':
+                n_r += 1
+                h = lm.held_at(f, bb, must=True)
+                k = sum(1 for x in ctx.instances if x['rule'] == 'C05.R2' and x['key'].startswith('C05.R2 | %s | doc_store.read()' % f.short))
+                ctx.inst('C05.R2', f.short, 'doc_store.read() #%d (pre-flight lookup) under the write gate' % k, 'HnswBackend.write_gate' in h, 'held at %s: %s' % (a.call.loc, sorted(h)))
+    ctx.floor('C05.R2', 'pre-flight lookups in mutators', n_r, 4, 'one per mutator')
     ct = ctx.body('C05.R2', 'HnswBackend::compact_tombstones')
     for bb, a in sorted(lm.body_acqs.get(ct.id, {}).items()):
         if a.cls in ('HnswBackend.doc_store', 'HnswBackend.index') and a.mode == 'W':
